@@ -1,6 +1,9 @@
 import PkgModel.Generated.PySrc
 import PkgModel.PyObj
 import PkgProofs.Lemmas.PyRt
+import PkgProofs.Lemmas.SrcRobust
+import PkgProofs.Lemmas.SrcLoops
+import PkgProofs.Lemmas.SrcTrailing
 /-!
 # Translated source of `packaging.version._cmpkey` = `V.cmpkey`
 -/
@@ -39,14 +42,77 @@ theorem local_key (l : List LSeg) :
   · intro x _
     split <;> simp [ofString]
 
-/-- `_cmpkey(epoch, release, pre, post, dev, local)` on the fields of a `_Version` builds the model's key -/
+/-- `_cmpkey(epoch, release, pre, post, dev, local)` on the fields of a `_Version` builds the model's key.
+Two ways of stripping the trailing zeros of the release are accepted: the `reversed`/`dropwhile` pipeline, and an index `while`
+loop walking back from the end (read through `PyRt.while_fuel`, which only asks what one iteration computes). -/
 theorem _cmpkey_eq_model (v : Ver) :
     Gen.PySrc._cmpkey (.int v.epoch) (ofRelease v.release) (ofOptPre v.pre) (ofTagged (ofString "post") v.post)
         (ofTagged (ofString "dev") v.dev) (ofLocal v.loc) = .ok (ofKey (cmpkey v)) := by
-  unfold Gen.PySrc._cmpkey
-  simp only [ofRelease, reversed_tuple, ok_bind, dropwhile_zero, list_iter, reversed_list, tuple_iter, List.map_reverse]
-  rcases v with ⟨epoch, release, pre, post, dev, loc⟩
-  cases pre <;> cases post <;> cases dev <;> cases loc <;>
-    simp [ofOptPre, ofTagged, ofLocal, ofKey, cmpkey, ofExt, ofPre, local_key, ofRelease, dropTrailingZeros]
+  first
+  | (
+      unfold Gen.PySrc._cmpkey
+      simp only [ofRelease, reversed_tuple, ok_bind, dropwhile_zero, list_iter, reversed_list, tuple_iter, List.map_reverse]
+      rcases v with ⟨epoch, release, pre, post, dev, loc⟩
+      cases pre <;> cases post <;> cases dev <;> cases loc <;>
+        simp [ofOptPre, ofTagged, ofLocal, ofKey, cmpkey, ofExt, ofPre, local_key, ofRelease, dropTrailingZeros]
+      done
+    )
+  | (
+      unfold Gen.PySrc._cmpkey
+      rw [fuelOf_succ']
+      unfold Gen.PySrc._cmpkey__fuel
+      simp only [ofRelease, len_tuple, ok_bind, List.length_map]
+      rw [(while_fuel _ (tzC v.release) tzS (tzI v.release) tzM ?hstop ?hgo ?hI ?hμ (List.range _) (.int v.release.length) ?hinit ?hlen).1]
+      case hstop =>
+        intro i s d hs hc
+        obtain ⟨k, hk, rfl⟩ := hs
+        cases k with
+        | zero => simp [gt, cmp, asInt, Cmp.onInt]
+        | succ j =>
+          obtain ⟨x, hx⟩ : ∃ x, v.release[j]? = some x := ⟨v.release[j], List.getElem?_eq_getElem (by omega)⟩
+          have hj : j < (v.release.map ofNat).length := by simp; omega
+          rw [tzC_succ] at hc
+          simp only [List.getD_eq_getElem?_getD, hx, Option.getD_some] at hc
+          have hx0 : ¬ x = 0 := by simpa using hc
+          simp [gt, cmp, asInt, Cmp.onInt, sub_int, getitem_tuple_nat _ _ hj, PyRt.eq, hx, ofNat, hx0]
+      case hgo =>
+        intro i s d hs hc
+        obtain ⟨k, hk, rfl⟩ := hs
+        cases k with
+        | zero => exact absurd hc (by simp [tzC])
+        | succ j =>
+          obtain ⟨x, hx⟩ : ∃ x, v.release[j]? = some x := ⟨v.release[j], List.getElem?_eq_getElem (by omega)⟩
+          have hj : j < (v.release.map ofNat).length := by simp; omega
+          rw [tzC_succ] at hc
+          simp only [List.getD_eq_getElem?_getD, hx, Option.getD_some] at hc
+          have hx0 : x = 0 := by simpa using hc
+          simp [gt, cmp, asInt, Cmp.onInt, sub_int, getitem_tuple_nat _ _ hj, PyRt.eq, hx, ofNat, hx0, tzS]
+      case hI =>
+        intro s hs hc
+        obtain ⟨k, hk, rfl⟩ := hs
+        cases k with
+        | zero => exact absurd hc (by simp [tzC])
+        | succ j => exact ⟨j, by omega, tzS_succ j⟩
+      case hμ =>
+        intro s hs hc
+        obtain ⟨k, hk, rfl⟩ := hs
+        cases k with
+        | zero => exact absurd hc (by simp [tzC])
+        | succ j => rw [tzS_succ]; simp [tzM]
+      case hinit => exact ⟨_, Nat.le_refl _, rfl⟩
+      case hlen =>
+        simp only [tzM, Int.toNat_natCast, List.length_range, sizeL, size, List.length_map]
+        have : sizeL (v.release.map ofNat) = v.release.length := by
+          induction v.release with
+          | nil => rfl
+          | cons a as ih => simp [sizeL, size, ofNat, ih]; omega
+        omega
+      obtain ⟨j, hj1, hj2⟩ := tz_end v.release v.release.length v.release.length (Nat.le_refl _) (Nat.le_refl _)
+      simp only [tzM, Int.toNat_natCast, hj1, ok_bind, Bool.not_true, Bool.false_eq_true, if_false, getslice_tuple_to, tuple_tuple,
+        ← List.map_take, hj2, List.take_length]
+      rcases v with ⟨epoch, release, pre, post, dev, loc⟩
+      cases pre <;> cases post <;> cases dev <;> cases loc <;>
+        simp [ofOptPre, ofTagged, ofLocal, ofKey, cmpkey, ofExt, ofPre, local_key, ofRelease]
+    )
 
 end Src
